@@ -36,10 +36,21 @@ def run(tier, seed, replay):
             print("no concrete input in this replay file; verifier output:")
             print(json.dumps(rp.get("verifier_output"), indent=1)[:3000])
             return 1
+        if task.get("op") == "diag_line":
+            from ..bounded import limits as BL
+            from .common import native_batch
+            r = native_batch([{"op": "pipeline", "text": task["text"], "name": "a.c"}])[0]
+            lines = task["text"].split("\n")
+            bad = [e["highlights"][0][0] for e in r.get("errors", []) if e["name"] == "LINE_TOO_LONG" and e["highlights"]
+                   and not (1 <= e["highlights"][0][0] <= len(lines) and BL.width(lines[e["highlights"][0][0] - 1]) > 80)]
+            print("LINE_TOO_LONG printed with lines that are not wider than 80 columns:", bad)
+            return 1 if bad else 0
         r = run_native("lexpos", task)
         print(json.dumps(r, indent=1)[:3000])
         return 1 if r.get("violations") else 0
     chk = Check("C09", tier, seed)
+    from .frames_common import file_source_obligations
+    file_source_obligations(chk)
     thorough = tier == "thorough"
     search = {}
 
@@ -81,6 +92,39 @@ def run(tier, seed, replay):
                     nat["bound"], nat["cases"], [v for v in pos_viol if not K7_PRE.search(v["text"])],
                     nontrivial=nat["nontrivial"],
                     samples=[nat["bound"][:80]], time_s=search.get("t", 0.0))
+    # second sentence of the statement: the line printed with a diagnostic is the offending line.
+    # Decided on the one diagnostic whose offending line is known without a second oracle:
+    # LINE_TOO_LONG must be printed with a line that is wider than 80 columns.
+    from ..bounded import limits as BL
+    from .common import native_batch
+    t0 = time.time()
+    dcases = [c for c in BL.line_cases(range(79, 84), seed, thorough)
+              if c["kind"].startswith("block-") or c["kind"] in ("line-comment", "code-alternative-spelling")]
+    dres = native_batch([{"op": "pipeline", "text": c["text"], "name": "a.c"} for c in dcases])
+    dviol = []
+    for c, r in zip(dcases, dres):
+        if r.get("exc") or r.get("fatal"):
+            continue
+        lines = c["text"].split("\n")
+        for e in r["errors"]:
+            if e["name"] != "LINE_TOO_LONG" or not e["highlights"]:
+                continue
+            ln = e["highlights"][0][0]
+            if not (1 <= ln <= len(lines)) or BL.width(lines[ln - 1]) <= 80:
+                dviol.append({"text": c["text"], "what": f"LINE_TOO_LONG is printed with line {ln}, which is "
+                              + (f"{BL.width(lines[ln - 1])} columns wide" if 1 <= ln <= len(lines) else "outside the file")})
+                break
+    chk.add_bounded("diagnostic positions (LINE_TOO_LONG through the whole pipeline)",
+                    "the line printed with LINE_TOO_LONG is a line wider than 80 columns (comments, block comments with "
+                    "control characters inside, alternative spellings)",
+                    f"{len(dcases)} generated files, widths 79..83", len(dcases), dviol,
+                    nontrivial=sum(1 for r in dres if any(e["name"] == "LINE_TOO_LONG" for e in r.get("errors", []))),
+                    samples=[dcases[0]["text"][-60:]] if dcases else [], time_s=time.time() - t0)
+    for v in dviol[:1]:
+        chk.report_violation("C09.bounded.diagnostic_lines", {
+            "property": "C09", "obligation": "C09.bounded.diagnostic_lines",
+            "replay": {"op": "diag_line", "text": v["text"]}, "confirmed_on_real_code": True},
+            what=v["what"] + f" [input {v['text']!r}]", confirmed=True)
     explained = chk.has_unlisted_failure()
     import re as _re
     K7 = _re.compile(r"(\\|\?\?/)(\?\?[<>()=/'!\-]|<%|%>|<:|:>|%:|\t)")      # escape of a respelled character / of a tab
